@@ -37,3 +37,15 @@ pub trait ExToString {
 pub uninterp spec fn to_text<T: ?Sized>(t: &T) -> Seq<char>;
 broadcast axiom fn axiom_to_text_string(s: &String)
     ensures #[trigger] to_text::<String>(s) == s@;
+// deviation surface: std::time::Duration with its real arithmetic
+pub mod time_shim {
+    use vstd::prelude::*;
+    pub struct Duration { pub secs: u64 }
+    impl Duration {
+        pub const fn from_secs(s: u64) -> (r: Duration) ensures r.secs == s { Duration { secs: s } }
+        #[verifier::external_body]
+        pub const fn as_millis(&self) -> (r: u128) ensures r == self.secs as u128 * 1000 { unimplemented!() }
+        pub const fn as_secs(&self) -> (r: u64) ensures r == self.secs { self.secs }
+    }
+}
+use time_shim::Duration;
